@@ -276,6 +276,17 @@ func tokenizeForSemantics(content string) []semanticToken {
 	directiveType := ""
 	isPayee := false
 	currentLine := -1
+	// On a transaction header the description and the note are free text whatever
+	// their first word looks like ("7 apples", "USD note", "a: b"); the lexer alone
+	// cannot know, so the words are re-read as text here exactly as the parser does.
+	const (
+		headerNone = iota
+		headerPrefix
+		headerDescription
+		headerNote
+		headerDone
+	)
+	header := headerNone
 
 	for {
 		tok := lexer.Next()
@@ -285,6 +296,8 @@ func tokenizeForSemantics(content string) []semanticToken {
 
 		if tok.Pos.Line != currentLine {
 			currentLine = tok.Pos.Line
+			isPayee = false
+			header = headerNone
 			if tok.Type == parser.TokenDirective {
 				inDirective = true
 				directiveType = tok.Value
@@ -292,10 +305,60 @@ func tokenizeForSemantics(content string) []semanticToken {
 				inDirective = false
 				directiveType = ""
 				isPayee = true
+				header = headerPrefix
 			} else if tok.Type != parser.TokenIndent && tok.Type != parser.TokenNewline {
 				inDirective = false
 				directiveType = ""
 			}
+		} else if header != headerNone && header != headerDone {
+			switch tok.Type {
+			case parser.TokenNewline, parser.TokenComment:
+				header = headerDone
+			case parser.TokenPipe:
+				header = headerNote
+			case parser.TokenText:
+				if header == headerNote {
+					header = headerDone
+				} else {
+					header = headerDescription
+				}
+			case parser.TokenDate, parser.TokenEquals, parser.TokenStatus, parser.TokenCode:
+				if header != headerPrefix {
+					tok = lexer.RescanText(tok)
+					if header == headerNote {
+						header = headerDone
+					} else {
+						header = headerDescription
+					}
+				}
+			default:
+				tok = lexer.RescanText(tok)
+				if header == headerNote {
+					header = headerDone
+				} else {
+					header = headerDescription
+				}
+			}
+		}
+
+		// The path of an include directive is one piece of text, whatever characters
+		// it is made of ("*.journal", "sub/2024-01.journal").
+		if inDirective && directiveType == "include" && tok.Type != parser.TokenDirective &&
+			tok.Type != parser.TokenNewline && tok.Type != parser.TokenComment {
+			if n := len(tokens); n > 0 && tokens[n-1].tokenType == TokenTypeString && tokens[n-1].line == uint32(tok.Pos.Line-1) &&
+				tok.End.Line == tok.Pos.Line {
+				tokens[n-1].length = uint32(tok.End.Column-1) - tokens[n-1].col
+				continue
+			}
+			if tok.End.Line == tok.Pos.Line && tok.End.Column > tok.Pos.Column {
+				tokens = append(tokens, semanticToken{
+					line:      uint32(tok.Pos.Line - 1),
+					col:       uint32(tok.Pos.Column - 1),
+					length:    uint32(tok.End.Column - tok.Pos.Column),
+					tokenType: TokenTypeString,
+				})
+			}
+			continue
 		}
 
 		semType, ok := mapTokenType(tok.Type)
@@ -324,10 +387,7 @@ func tokenizeForSemantics(content string) []semanticToken {
 			}
 		}
 
-		length := uint32(lsputil.UTF16Len(tok.Value))
-		if tok.Type == parser.TokenComment {
-			length++
-		}
+		length := tokenLength(tok)
 
 		tokens = append(tokens, semanticToken{
 			line:      uint32(tok.Pos.Line - 1),
@@ -339,6 +399,23 @@ func tokenizeForSemantics(content string) []semanticToken {
 	}
 
 	return tokens
+}
+
+// tokenLength is the number of UTF-16 code units a token covers in the text. The
+// value of a token is not always the text it was lexed from: a code loses its
+// parentheses, a quoted commodity its quotes, a comment its semicolon, and free
+// text may carry trailing blanks that are not part of it.
+func tokenLength(tok parser.Token) uint32 {
+	switch tok.Type {
+	case parser.TokenText:
+		return uint32(lsputil.UTF16Len(strings.TrimRight(tok.Value, " \t")))
+	case parser.TokenComment:
+		return uint32(lsputil.UTF16Len(tok.Value)) + 1
+	}
+	if tok.End.Line == tok.Pos.Line && tok.End.Column > tok.Pos.Column {
+		return uint32(tok.End.Column - tok.Pos.Column)
+	}
+	return uint32(lsputil.UTF16Len(tok.Value))
 }
 
 func extractTagTokensFromComment(tok parser.Token) []semanticToken {
@@ -374,12 +451,13 @@ func extractTagTokensFromComment(tok parser.Token) []semanticToken {
 		tagStart += searchStart
 
 		// Tag name with colon: "name:"
-		tagNameWithColonLen := uint32(len(name) + 1)
+		tagNameWithColonLen := uint32(lsputil.UTF16Len(name) + 1)
 
-		// +1 to baseCol accounts for the semicolon that starts the comment
+		// +1 to baseCol accounts for the semicolon that starts the comment;
+		// columns count UTF-16 code units, tagStart counts bytes
 		tokens = append(tokens, semanticToken{
 			line:      baseLine,
-			col:       baseCol + 1 + uint32(tagStart),
+			col:       baseCol + 1 + uint32(lsputil.UTF16Len(commentText[:tagStart])),
 			length:    tagNameWithColonLen,
 			tokenType: TokenTypeTag,
 			modifiers: 0,
@@ -395,8 +473,8 @@ func extractTagTokensFromComment(tok parser.Token) []semanticToken {
 				if valueStart != -1 {
 					tokens = append(tokens, semanticToken{
 						line:      baseLine,
-						col:       baseCol + 1 + uint32(tagNameEnd+valueStart),
-						length:    uint32(len(value)),
+						col:       baseCol + 1 + uint32(lsputil.UTF16Len(commentText[:tagNameEnd+valueStart])),
+						length:    uint32(lsputil.UTF16Len(value)),
 						tokenType: TokenTypeTagValue,
 						modifiers: 0,
 					})
